@@ -136,9 +136,73 @@ def table() -> dict:
                 (num if r["kind"] == "num" else enum)[p] = r
         typed_msgs = set(V.typed_messages(t))
         opaque_msgs_paths = set(o["path"] for o in t["opaque"])
-        _T = {"t": t, "sections": sections, "num": num, "enum": enum, "typed_msgs": typed_msgs,
+        aliases: List[Tuple[Tuple[str, ...], Tuple[str, ...]]] = []
+        for r in t["rules"]:
+            if r["kind"] == "num":
+                for a in r.get("aliases", []):
+                    pair = (tuple(r["out"]), tuple(a))
+                    if pair not in aliases and (pair[1], pair[0]) not in aliases:
+                        aliases.append(pair)
+        for pair in EXTRA_ALIASES:
+            if pair not in aliases:
+                aliases.append(pair)
+        _T = {"t": t, "aliases": aliases, "sections": sections, "num": num, "enum": enum, "typed_msgs": typed_msgs,
               "opaque_paths": opaque_msgs_paths, "defaults": t["consts"].get("DEFAULTS", {})}
     return _T
+
+
+# alias / legacy-key pairs not visible as a single value expression (two rules, or an opaque rule)
+EXTRA_ALIASES = [
+    (("perf", "t1", "caps", "frontier"), ("perf", "t1", "queue_cap")),
+    (("t2", "quality", "mmr", "k"), ("t2", "quality", "mmr", "k_final")),
+    (("t2", "quality", "mmr", "lambda"), ("t2", "quality", "mmr", "lambda_relevance")),
+    (("t2", "quality", "lexical", "bm25", "k1"), ("t2", "quality", "lexical", "bm25_k1")),
+    (("t2", "quality", "lexical", "bm25", "b"), ("t2", "quality", "lexical", "bm25_b")),
+]
+ALIAS_VALUES = [-5, "-7", -3.9, -1, -0.5, -1e-9, 0, -0.0, 1, 2, 0.5, "0", "1", " 3 ", "-1", "x", "", None, True, False, 7, 600,
+                float("nan"), float("inf"), -float("inf"), 10 ** 400, -(10 ** 400), [], {}]
+
+
+def _set_path(cfg: dict, path: Tuple[str, ...], v: Any) -> None:
+    d = cfg
+    for k in path[:-1]:
+        if not isinstance(d.get(k), dict):
+            d[k] = {}
+        d = d[k]
+    d[path[-1]] = v
+
+
+def _del_path(cfg: dict, path: Tuple[str, ...]) -> None:
+    d = cfg
+    for k in path[:-1]:
+        d = d.get(k) if isinstance(d, dict) else None
+        if not isinstance(d, dict):
+            return
+    d.pop(path[-1], None)
+
+
+def gen_alias_config(rng: random.Random) -> Tuple[Any, List[str]]:
+    """Every alias pair the normaliser knows, each key alone and both together."""
+    T = table()
+    canon, alias = rng.choice(T["aliases"])
+    base = rng.random()
+    if base < 0.5:
+        cfg: Any = {}
+    elif base < 0.75:
+        cfg = copy.deepcopy(T["defaults"])
+    else:
+        cfg = copy.deepcopy(RICH)
+        cfg["t2"]["quality"] = copy.deepcopy(QUALITY)
+    if canon[0] == "perf" and not isinstance(cfg.get("perf"), dict):
+        cfg["perf"] = {"enabled": rng.random() < 0.5}
+    _del_path(cfg, canon)
+    _del_path(cfg, alias)
+    mode = rng.choice(["alias_alone", "alias_alone", "canon_alone", "both", "both"])
+    if mode in ("alias_alone", "both"):
+        _set_path(cfg, alias, rng.choice(ALIAS_VALUES))
+    if mode in ("canon_alone", "both"):
+        _set_path(cfg, canon, rng.choice(ALIAS_VALUES))
+    return cfg, ["alias:" + mode, "alias_pair:" + ".".join(canon)]
 
 
 UNK_RE = re.compile(r" unknown (top-level )?key( \(did you mean '[^']*'\))?\Z")
@@ -436,7 +500,10 @@ class ValidMsgs(Component):
     budget = {"quick": 2500, "thorough": 40000, "search": 40000}
 
     def gen(self, rng: random.Random, i: int) -> dict:
-        cfg, tags = gen_config(rng, valid_only=(rng.random() < 0.3))
+        if rng.random() < 0.12:
+            cfg, tags = gen_alias_config(rng)
+        else:
+            cfg, tags = gen_config(rng, valid_only=(rng.random() < 0.3))
         return {"cfg": enc(cfg), "gtags": sorted(set(tags))}
 
     def impl(self, case: dict) -> Any:
